@@ -291,7 +291,8 @@ fn query_menu(thorough: bool) -> Vec<Q> {
     }
     // DISTINCT path: keys are result columns
     let dsel: Vec<(&str, Vec<(&str, Vec<(KeyRef, bool)>)>)> = vec![
-        ("a, b", vec![("", vec![]), ("a, b", vec![(KeyRef::Res(0), false), (KeyRef::Res(1), false)]), ("a DESC, b", vec![(KeyRef::Res(0), true), (KeyRef::Res(1), false)]), ("b DESC, a DESC", vec![(KeyRef::Res(1), true), (KeyRef::Res(0), true)]), ("2, 1 DESC", vec![(KeyRef::Res(1), false), (KeyRef::Res(0), true)])]),
+        // (ORDER BY on a *subset* of the DISTINCT columns: equal rows need not be adjacent after the sort)
+        ("a, b", vec![("", vec![]), ("a", vec![(KeyRef::Res(0), false)]), ("b DESC", vec![(KeyRef::Res(1), true)]), ("a, b", vec![(KeyRef::Res(0), false), (KeyRef::Res(1), false)]), ("a DESC, b", vec![(KeyRef::Res(0), true), (KeyRef::Res(1), false)]), ("b DESC, a DESC", vec![(KeyRef::Res(1), true), (KeyRef::Res(0), true)]), ("2, 1 DESC", vec![(KeyRef::Res(1), false), (KeyRef::Res(0), true)])]),
         ("a", vec![("", vec![]), ("a", vec![(KeyRef::Res(0), false)]), ("a DESC", vec![(KeyRef::Res(0), true)]), ("1", vec![(KeyRef::Res(0), false)])]),
         ("c", vec![("", vec![]), ("c DESC", vec![(KeyRef::Res(0), true)])]),
         ("a + b AS e", vec![("", vec![]), ("e", vec![(KeyRef::Res(0), false)])]),
@@ -563,6 +564,9 @@ pub fn run(tier: &str) -> i32 {
         dbs.push(vec![2, 1, 1, 0, 3, 5]);
         dbs.push(vec![4, 3, 2, 2, 0]);
         // NULL-free tables with shared index keys / shared prefixes ('a' and 'ab')
+        // (the explicit lists are insertion orders: duplicates that are not adjacent in storage order)
+        dbs.push(vec![0, 2, 0]);
+        dbs.push(vec![2, 0, 2, 0]);
         dbs.push(vec![0, 1, 2, 6, 6]);
         dbs.push(vec![0, 2, 6]);
     }
